@@ -163,6 +163,7 @@ type vSysWriterProc struct {
 }
 
 const vSysWriterID = "stream/sys:1"
+const vSysDialingID = "stream/sys:2" // a writer that is still dialing its peer: inbox open, no stream yet
 
 func (w *vSysWriterProc) Start() { w.streamWriter.inbox.Start(w) }
 func (w *vSysWriterProc) Send(pid *actor.PID, msg any, sender *actor.PID) {
@@ -206,7 +207,7 @@ func (w *vSysWriterProc) settle() bool {
 	return p
 }
 
-var vSysWriter *vSysWriterProc
+var vSysWriter, vSysDialing *vSysWriterProc
 
 var (
 	vOnce   sync.Once
@@ -235,6 +236,11 @@ func vSetup(t testing.TB) {
 		vSysWriter = &vSysWriterProc{streamWriter: sw, log: vTheLog}
 		vKnownIDs[vSysWriterID] = true
 		e.SpawnProc(vSysWriter)
+		// the state streamWriter.Start leaves the writer in while init() is still dialing: inbox started, stream and connection nil
+		sw2 := newStreamWriter(e, actor.NewPID("local", "router"), "sys:2", nil, 0).(*streamWriter)
+		vSysDialing = &vSysWriterProc{streamWriter: sw2, log: vTheLog}
+		vKnownIDs[vSysDialingID] = true
+		e.SpawnProc(vSysDialing)
 	})
 	vTheLog.mu.Lock()
 	vTheLog.dls = nil
@@ -487,7 +493,8 @@ func runHostile(t testing.TB, e *Envelope) string {
 	}
 	fs := &vStream{queue: []*Envelope{e}}
 	out := vReadAll(fs)
-	if vSysWriter.settle() {
+	p1, p2 := vSysWriter.settle(), vSysDialing.settle()
+	if p1 || p2 {
 		out = "panic-in-stream-writer(" + out + ")" // on an inbox goroutine: the node would have exited
 	}
 	vTheLog.mu.Lock()
@@ -557,8 +564,8 @@ func genHostile(r *vgen.Rng) *Envelope {
 		}
 	}
 	for i := 0; i < ng; i++ {
-		if r.Chance(1, 8) { // one of the node's own system processes: a live stream writer
-			e.Targets = append(e.Targets, actor.NewPID("local", vSysWriterID))
+		if r.Chance(1, 8) { // one of the node's own system processes: a live stream writer, or one that is still dialing
+			e.Targets = append(e.Targets, actor.NewPID("local", vgen.Pick(r, []string{vSysWriterID, vSysDialingID})))
 			continue
 		}
 		e.Targets = append(e.Targets, vMkPid(r.Intn(len(vPidPool))))
